@@ -12,6 +12,8 @@ type tierCfg struct {
 	batchSize int
 	checks    int // rapid checks per (world, mode)
 	timeoutS  int // per runner process
+	cold      int // mode "coldstart": runner processes per world (one route each, at most this many)
+	coldChk   int // plans per cold-start process
 	env       []string
 }
 
@@ -108,9 +110,9 @@ func init() {
 		technique: "deterministic simulation with fault injection on a simulated HTTP link (truncate/reset/stall/dup/drop/write-error/rogue upstream, virtual-clock deadlines) + single-fault offset sweeps",
 	}
 	props["C17"] = &propCfg{
-		id: "C17", level: "exploration", design: "DESIGN.md §4 C17", modes: []string{"isolation", "history"}, passes: []string{"yield"},
-		quick: tierCfg{worlds: 28, batchSize: 24, checks: 360, timeoutS: 300},
-		thor:  tierCfg{worlds: 140, batchSize: 40, checks: 6300, timeoutS: 9000},
+		id: "C17", level: "exploration", design: "DESIGN.md §4 C17", modes: []string{"isolation", "history", "coldstart"}, passes: []string{"yield"},
+		quick: tierCfg{worlds: 28, batchSize: 24, checks: 360, timeoutS: 300, cold: 10, coldChk: 3},
+		thor:  tierCfg{worlds: 140, batchSize: 40, checks: 6300, timeoutS: 9000, cold: 48, coldChk: 12},
 		genCfg: func(seed uint64, name string) gen.Config {
 			if seed%3 == 0 {
 				// worlds with the JSON-mapping annotations: their generated codecs run under the same interleavings
